@@ -2,6 +2,7 @@
 import hashlib
 import json
 import os
+import shutil
 
 from . import stores
 from .util import md5hex, safe_call
@@ -465,6 +466,238 @@ def run_stage_links(ctx, n):
             state.close()
 
 
+LARGE = 2**20  # build.py hands files strictly above this size to its hashing pool (when a directory has two or more of them)
+
+
+class _Gate:
+    """Decides in which order the reads made from pool threads *complete*: a read of `path` made outside the main thread
+    does not return from closing its file before all of `preds[path]` have completed theirs. Reads in the main thread
+    (sequential hashing) pass through. A wait that cannot be satisfied (the library did not read a predecessor from a
+    pool thread after all) gives up after a guard timeout and is counted, so a wrong prediction never hangs the check."""
+
+    GUARD = 5.0
+
+    def __init__(self):
+        import threading
+
+        self.threading = threading
+        self.cv = threading.Condition()
+        self.preds = {}
+        self.done = set()
+        self.finished = []
+        self.timeouts = 0
+
+    def arm(self, preds):
+        with self.cv:
+            self.preds = preds
+            self.done = set()
+            self.finished = []
+
+    def finish(self, path):
+        if self.threading.current_thread() is self.threading.main_thread():
+            return
+        with self.cv:
+            need = self.preds.get(path)
+            if need and path not in self.done:
+                if not self.cv.wait_for(lambda: need <= self.done, timeout=self.GUARD):
+                    self.timeouts += 1
+            if path not in self.done:
+                self.done.add(path)
+                self.finished.append(path)
+            self.cv.notify_all()
+
+
+class _GatedFile:
+    def __init__(self, f, gate, path):
+        self._f, self._gate, self._path = f, gate, path
+
+    def __getattr__(self, name):
+        return getattr(self._f, name)
+
+    def __iter__(self):
+        return iter(self._f)
+
+    def __enter__(self):
+        return self
+
+    def __exit__(self, *exc):
+        self.close()
+        return False
+
+    def close(self):
+        if not self._f.closed:
+            self._f.close()
+            self._gate.finish(self._path)
+
+
+def _gated_fs(gate):
+    from dvc_objects.fs.local import LocalFileSystem
+
+    class GatedLocalFileSystem(LocalFileSystem):
+        """a local filesystem (the state cache accepts it) whose binary reads complete in the order the gate dictates"""
+
+        def open(self, path, mode="r", **kwargs):
+            f = super().open(path, mode, **kwargs)
+            if mode in ("rb", "br") and path in gate.preds:
+                return _GatedFile(f, gate, path)
+            return f
+
+    return GatedLocalFileSystem()
+
+
+def _big_content(rng, tag, size):
+    """`size` bytes, distinct per tag, cheap to produce; line ends of both kinds so that md5-dos2unix differs from md5"""
+    head = b"<%s:%d>" % (tag.encode(), rng.randrange(10**6))
+    unit = bytes(rng.choice(b"abcdefgh \r\n\n") for _ in range(61)) + rng.choice([b"\r\n", b"\n", b"\x00", b"z"])
+    body = head + unit * (size // len(unit) + 1)
+    return body[:size]
+
+
+def run_stage_pool(ctx, n):
+    """directories whose files straddle the large-file threshold are staged through the hash-state cache with 1..8 hashing
+    jobs, part of the files being already cached (for the same or for another algorithm); the order in which the pool's
+    reads complete is chosen by the harness (a random permutation per directory, forced through the filesystem object);
+    then some files are rewritten and the directory is staged again (hits and misses mixed). After every staging: the
+    staged tree, State.get, State.get_many, hash_file through the cache and a further staging (all hits) give, for every
+    path, the hash of the bytes that are there now; batch and single lookups agree."""
+    from dvc_data.hashfile.build import build
+    from dvc_data.hashfile.db.local import LocalHashFileDB
+    from dvc_data.hashfile.hash import hash_file
+    from dvc_data.hashfile.state import State
+
+    rng = ctx.rng
+    plain_fs = stores.fs_local()
+    ncpu_workers = min(16, (os.cpu_count() or 1) + 4)
+    for _ in range(n):
+        root = ctx.mkdtemp()
+        ws = os.path.join(root, "ws")
+        os.makedirs(os.path.join(ws, "sub"))
+        gate = _Gate()
+        fs = _gated_fs(gate)
+        state = State(root_dir=root, tmp_dir=os.path.join(root, "tmp"))
+        odb = LocalHashFileDB(fs, os.path.join(root, "odb"), state=state)
+        algo = rng.choice(["md5", "md5", "sha256", "md5-dos2unix"])
+        content = {}
+        nlarge = rng.choice([1, 2, 2, 3, 3, 4])
+        for i in range(nlarge):
+            rel = ("sub/" if rng.random() < 0.25 else "") + "big%d" % i
+            content[rel] = _big_content(rng, rel, LARGE + rng.choice([1, 1, 2, 4097, LARGE // 2, LARGE + 1]))
+        for i in range(rng.randrange(0, 3)):
+            rel = ("sub/" if rng.random() < 0.25 else "") + "small%d" % i
+            content[rel] = _big_content(rng, rel, rng.choice([0, 1, 7, 4096, LARGE - 1, LARGE]))
+        for rel, data in content.items():
+            with open(os.path.join(ws, rel), "wb") as f:
+                f.write(data)
+        steps = []
+        case = {"stage_pool": {"algo": algo, "sizes": {k: len(v) for k, v in sorted(content.items())}, "steps": steps}}
+        cached_for = {}  # rel -> algorithm of the row the cache holds for the file's current stamp
+        memo = {}
+
+        def ref(name, data):  # the reference digest, computed once per (algorithm, content object)
+            key = (name, id(data))
+            if key not in memo:
+                memo[key] = (data, digest(name, data))
+            return memo[key][1]
+
+        def check_all(where):
+            paths = [os.path.join(ws, rel) for rel in sorted(content)]
+            cur = {p: content[rel] for p, rel in zip(paths, sorted(content))}
+            k, many = safe_call(lambda: list(state.get_many(paths, fs, {})))
+            ctx.oracle(k == "ok" and [m[0] for m in many] == paths, case, {"why": "State.get_many failed or answered for other paths", "after": where, "impl": str(many)[:200]})
+            for p, _meta, hi in many if k == "ok" else []:
+                ctx.oracle(hi is None or hi.value == ref(hi.name, cur[p]), case,
+                           {"why": "State.get_many returned a hash that is not the hash of the file's current bytes", "after": where,
+                            "file": os.path.relpath(p, ws), "cached": None if hi is None else [hi.name, hi.value],
+                            "current": None if hi is None else ref(hi.name, cur[p])})
+                _, single = state.get(p, fs)
+                ctx.oracle(single == hi, case, {"why": "batch and single lookups disagree", "after": where, "file": os.path.relpath(p, ws)})
+            for p in paths:
+                _, hi = state.get(p, plain_fs)
+                ctx.oracle(hi is None or hi.value == ref(hi.name, cur[p]), case,
+                           {"why": "State.get returned a hash that is not the hash of the file's current bytes", "after": where,
+                            "file": os.path.relpath(p, ws), "cached": None if hi is None else [hi.name, hi.value],
+                            "current": None if hi is None else ref(hi.name, cur[p])})
+                k, hi2 = safe_call(lambda: hash_file(p, plain_fs, algo, state=state)[1])
+                ctx.oracle(k == "ok" and hi2.name == algo and hi2.value == ref(algo, cur[p]), case,
+                           {"why": "hash_file through the cache differs from the hash of the current bytes", "after": where,
+                            "file": os.path.relpath(p, ws), "got": str(hi2), "current": ref(algo, cur[p])})
+
+        def stage(where, jobs, dry):
+            # which files the library is expected to hash on its pool: state misses above the threshold, two or more per directory
+            by_dir = {}
+            for rel in sorted(content):
+                if len(content[rel]) > LARGE and cached_for.get(rel) != algo:
+                    by_dir.setdefault(os.path.dirname(rel), []).append(os.path.join(ws, rel))
+            workers = jobs if jobs else ncpu_workers
+            preds, forced = {}, {}
+            for d, ps in by_dir.items():
+                if len(ps) >= 2 and 1 < workers and len(ps) <= workers:
+                    order = rng.sample(ps, len(ps))
+                    forced[d or "."] = [os.path.relpath(p, ws) for p in order]
+                    for j, p in enumerate(order):
+                        preds[p] = set(order[:j])
+            gate.arm(preds)
+            k, res = safe_call(lambda: build(odb, ws, fs, algo, checksum_jobs=jobs, dry_run=dry))
+            completed = [os.path.relpath(p, ws) for p in gate.finished]
+            gate.arm({})
+            steps.append({"stage": where, "jobs": jobs, "dry_run": dry, "pool_completion_order": forced, "completed": completed})
+            ctx.count("stage_pool:jobs=%s" % jobs)
+            ctx.count("stage_pool:pool_files=%d" % sum(len(v) for v in forced.values()))
+            if any(o != sorted(o) for o in forced.values()):
+                ctx.count("stage_pool:completion_forced_out_of_name_order")
+            ctx.oracle(k == "ok", case, {"why": "staging raised", "after": where, "impl": str(res)[:200]})
+            if k != "ok":
+                return
+            got = {"/".join(key): (hi.name, hi.value) for key, _m, hi in res[2]}
+            ctx.oracle(sorted(got) == sorted(content), case, {"why": "the staged tree lists other paths than the directory holds", "after": where, "tree": sorted(got)})
+            for rel in sorted(content):
+                cur = ref(algo, content[rel])
+                ctx.oracle(got.get(rel) == (algo, cur), case,
+                           {"why": "staging through the cache reports a hash that is not the hash of the file's bytes", "after": where,
+                            "file": rel, "staged": got.get(rel), "current": cur})
+                cached_for[rel] = algo
+            check_all(where)
+
+        try:
+            # part of the files is known to the cache beforehand, for this algorithm or for another one
+            for rel in sorted(content):
+                if rng.random() < 0.3:
+                    a0 = rng.choice([algo, rng.choice(ALGOS)])
+                    safe_call(lambda: hash_file(os.path.join(ws, rel), plain_fs, a0, state=state))
+                    cached_for[rel] = a0
+                    steps.append({"precached": rel, "algo": a0})
+                    ctx.count("stage_pool:precached_" + ("same_algo" if a0 == algo else "other_algo"))
+            ctx.case(case, nontrivial=nlarge >= 2)
+            stage("first staging", rng.choice([None, None, 1, 2, 4, 8]), rng.random() < 0.5)
+            # rewrite some files (size kept or changed, always with an explicit mtime step), then stage again: hits and misses mixed
+            for rel in sorted(content):
+                if rng.random() < 0.5:
+                    p = os.path.join(ws, rel)
+                    old = content[rel]
+                    how = rng.choice(["rewrite_same_size", "append", "replace_same_size"]) if old else "append"
+                    new = old + b"+more" if how == "append" else bytes([old[0] ^ 1]) + old[1:]
+                    st = os.stat(p)
+                    if how == "replace_same_size":
+                        with open(p + ".new", "wb") as f:
+                            f.write(new)
+                        os.replace(p + ".new", p)
+                    else:
+                        with open(p, "wb") as f:
+                            f.write(new)
+                    os.utime(p, ns=(st.st_atime_ns, st.st_mtime_ns + rng.choice([1_000_000, 1_000_000_000, 3_000_000_000])))
+                    content[rel] = new
+                    cached_for.pop(rel, None)
+                    steps.append({"mutate": rel, "how": how})
+                    ctx.count("stage_pool:" + how)
+            stage("second staging", rng.choice([None, None, 1, 2, 4, 8]), rng.random() < 0.5)
+            stage("third staging (nothing changed)", rng.choice([None, 1, 3]), True)
+        finally:
+            state.close()
+            shutil.rmtree(root, ignore_errors=True)  # several MiB per scenario
+        if gate.timeouts:
+            ctx.count("stage_pool:gate_guard_timeout", gate.timeouts)
+
+
 def run_checkout_state(ctx, n):
     """index checkout with a hash-state database onto a workspace that already holds foreign files, some objects being unavailable:
     whatever the cache says about a workspace path afterwards must be the hash of the bytes that are there"""
@@ -548,7 +781,7 @@ def run(ctx):
         "with and without preserved mtime), touch, delete, re-create — each followed by an explicit mtime bump from 1 ms to 3 s — "
         "interleaved with hash_file (md5 / md5-dos2unix / sha256), State.get, State.get_many and rows injected as another release "
         "would write them (version-less, newer version); batches of 0/1/998/999/1000/1100(2500) paths; staging under one algorithm "
-        "then another; index md5()+edits+update(); files rewritten from the progress callback while their directory is being staged; staged directories holding symlinks whose targets are rewritten or replaced between two stagings; a memory filesystem. non-trivial = >=1 mutation and >=4 steps"
+        "then another; index md5()+edits+update(); files rewritten from the progress callback while their directory is being staged; staged directories holding symlinks whose targets are rewritten or replaced between two stagings; directories with 1-4 files above the 1 MiB large-file threshold (and 0-2 at or below it, root and sub-directory) staged three times through the cache with checksum_jobs in {default,1,2,3,4,8}, part of the files cached beforehand for the same or another algorithm, files rewritten / appended / replaced between the stagings, the completion order of the hashing pool's reads being a random permutation forced through the filesystem object; a memory filesystem. non-trivial = >=1 mutation and >=4 steps"
     )
     ctx.assumptions = ["a mutation changes at least one of (inode, mtime, size) and never returns to a stamp the path had with other bytes (inode reuse under a preserved mtime and size is bumped); the harness enforces it with os.utime",
                        "fsspec.utils.tokenize is injective on the (ino, mtime, size) triples that occur"]
@@ -559,6 +792,7 @@ def run(ctx):
     run_build_race(ctx, ctx.n(40, 400))
     run_checkout_state(ctx, ctx.n(50, 500))
     run_stage_links(ctx, ctx.n(30, 300))
+    run_stage_pool(ctx, ctx.n(12, 80))
 
 
 def search(ctx):
@@ -568,6 +802,7 @@ def search(ctx):
     run_build_race(ctx, 300)
     run_checkout_state(ctx, 300)
     run_stage_links(ctx, 300)
+    run_stage_pool(ctx, 60)
 
 
 def replay(ctx, payload):
